@@ -1899,6 +1899,13 @@ class PyCdlib:
         if self._rr_moved_rr_name is None:
             self._rr_moved_rr_name = b'rr_moved'
 
+        # A directory of that name that exists already is the relocation
+        # directory, as it is when an ISO is opened.
+        for child in self.pvd.root_directory_record().children:
+            if child.file_ident == self._rr_moved_name and child.is_dir():
+                self._rr_moved_record = child
+                return 0
+
         # No rr_moved found, so we have to create it.
         rec = dr.DirectoryRecord()
         rec.new_dir(self.pvd, self._rr_moved_name,
